@@ -14,11 +14,11 @@ FUNCTIONS = [
     "CoordinateTransformer.apply_transform/reverse_transform", "Transform.apply/reverse/_chain_matrix",
     "GCodeCore.current_transform/named_transform", "Point.to_vector/from_vector",
 ]
-BOUNDS = ("Histories are ENUMERATED, not solved: every sequence of up to 2 operations over a 16-letter "
-          "alphabet plus length 3 over a 9-letter core alphabet (quick); up to 3 over the full and "
+BOUNDS = ("Histories are ENUMERATED, not solved: every sequence of up to 2 operations over a 20-letter "
+          "alphabet plus length 3 over a 10-letter core alphabet (quick); up to 3 over the full and "
           "4 over the core alphabet (thorough). Alphabet {translate, rotate z/x, uniform and non-uniform "
           "scale, reflect, mirror, set_pivot, save, save('a'), restore, restore('a'), delete('a'), "
-          "enter/leave current_transform(), named_transform('a'), raise inside a context} with "
+          "enter/leave current_transform(), named_transform('a'), raise inside a context; bodies that pop below the entry depth} with "
           "concrete parameters, run against an independent stack-of-matrices model. Solver over: "
           "the probe point p (all reals in [-1000,1000]^3): at the end of the sequence apply(p) equals "
           "the model's image and reverse(apply(p)) equals p (tolerance 3e-6 / 3e-3); after every "
@@ -104,13 +104,26 @@ class Model:
 
 
 # ----------------------------------------------------------- operations ----
-OPS = ["translate", "rotate-z", "rotate-x", "scale", "scale-xyz", "reflect", "mirror", "pivot",
-       "save", "save-a", "restore", "restore-a", "delete-a", "ctx", "ctx-named", "ctx-raise"]
-INNER = ["translate", "rotate-z", "save", "restore", "restore-a", "save-a"]  # bodies of contexts
+OPS = ["translate", "rotate-z", "rotate-x", "scale", "scale-xyz", "scale-vp", "reflect", "mirror",
+       "pivot", "save", "save-a", "restore", "restore-a", "delete-a", "ctx", "ctx-named",
+       "ctx-raise", "ctx-pop", "ctx-named-pop", "ctx-raise-pop"]
+# bodies of the context-manager operations
+BODIES = {
+    "ctx": ["translate", "rotate-z", "save", "restore"],
+    "ctx-named": ["translate", "rotate-z", "save", "restore"],
+    "ctx-raise": ["translate", "rotate-z"],
+    "ctx-pop": ["restore", "translate"],            # pops below the entry depth, then transforms
+    "ctx-named-pop": ["restore", "rotate-z", "save-a"],
+    "ctx-raise-pop": ["restore", "scale"],
+}
 
 
 class Boom(Exception):
     pass
+
+
+def entry_named_keys(model, entry):
+    return model.named.keys() if not hasattr(model, "_named_at") else model._named_at
 
 
 def apply_op(op, g, model, after):
@@ -146,6 +159,8 @@ def apply_op(op, g, model, after):
         return both(lambda: t.rotate(30.0, "x"), lambda: model.chain(_rot(30.0, "x")))
     if op == "scale":
         return both(lambda: t.scale(2.0), lambda: model.chain(_scale(2.0, 2.0, 2.0)))
+    if op == "scale-vp":  # volume preserving, not orthogonal (det = 1)
+        return both(lambda: t.scale(2.0, 0.5), lambda: model.chain(_scale(2.0, 0.5, 1.0)))
     if op == "scale-xyz":
         return both(lambda: t.scale(2.0, 0.5, 4.0), lambda: model.chain(_scale(2.0, 0.5, 4.0)))
     if op == "reflect":
@@ -165,29 +180,35 @@ def apply_op(op, g, model, after):
         return both(lambda: t.restore_state("a"), m_restore_a)
     if op == "delete-a":
         return both(lambda: t.delete_state("a"), lambda: model.named.pop("a"))
-    if op in ("ctx", "ctx-raise", "ctx-named"):
+    if op in BODIES:
         entry = model.full()
+        model._named_at = set(model.named.keys())
+        named_entry = op.startswith("ctx-named")
+        raising = op.startswith("ctx-raise")
         re = me = None
         inner_v = []
         try:
-            cm = g.named_transform("a") if op == "ctx-named" else g.current_transform()
+            cm = g.named_transform("a") if named_entry else g.current_transform()
             with cm:
-                if op == "ctx-named":
+                if named_entry:
                     m_restore_a()
-                for inner in INNER[:4] if op != "ctx-raise" else INNER[:2]:
+                for inner in BODIES[op]:
                     r = apply_op(inner, g, model, after)
                     if r[0] != r[1]:
                         inner_v.append((inner, r))
+                        break
+                    if r[0] is not None:
+                        break  # both raised the same error inside the body: leave the context
                     v = after(f"{op}/{inner}")
                     if v is not None:
                         inner_v.append(v)
-                if op == "ctx-raise":
+                if raising:
                     raise Boom()
         except Boom:
             pass
         except Exception as e:  # noqa: BLE001
             re = type(e).__name__
-        if op == "ctx-named" and "a" not in model.named:
+        if named_entry and "a" not in entry_named_keys(model, entry):
             me = "KeyError"
         if me is None or re is None:
             model.revert(entry)
@@ -228,12 +249,34 @@ def _make(seq):
             if tuple(cur._pivot) != tuple(model.pivot):
                 return V("pivot-differs-from-model",
                          lambda: f"after {done + [label]}: real pivot {tuple(cur._pivot)!r}, model {model.pivot!r}")
+            # saved states are immutable snapshots: stack entries and named states match the model
+            # (observable through restore_state; compared here so that a corruption is seen at once)
+            real_stack = g.transform._transforms_stack
+            if len(real_stack) == len(model.stack):
+                for k, (tr, (mm, mp)) in enumerate(zip(real_stack, model.stack)):
+                    if not _matrix_close(tr._matrix, mm) or tuple(tr._pivot) != tuple(mp):
+                        return V("saved-stack-entry-differs-from-model",
+                                 lambda: f"after {done + [label]}: stack[{k}] real {tr._matrix.tolist()!r} "
+                                         f"model {mm!r}")
+            for name, (mm, mp) in model.named.items():
+                tr = g.transform._named_transforms.get(name)
+                if tr is None or not _matrix_close(tr._matrix, mm) or tuple(tr._pivot) != tuple(mp):
+                    return V("named-state-differs-from-model",
+                             lambda: f"after {done + [label]}: named[{name!r}] differs from the snapshot taken")
+            inv = cur._inverse.tolist()
+            mat = cur._matrix.tolist()
+            for i in range(4):
+                for j in range(4):
+                    v = sum(inv[i][k] * mat[k][j] for k in range(4))
+                    if abs(v - (1.0 if i == j else 0.0)) > 1e-7:
+                        return V("cached-inverse-is-not-the-inverse",
+                                 lambda: f"after {done + [label]}: inverse*matrix != I ({inv!r} x {mat!r})")
             return None
 
         for op in seq:
             pivot = model.pivot
             fixed_before = None
-            if op in ("rotate-z", "rotate-x", "scale", "scale-xyz"):
+            if op in ("rotate-z", "rotate-x", "scale", "scale-xyz", "scale-vp"):
                 fixed_before = g.transform.reverse_transform(pivot)
             re, me = apply_op(op, g, model, after)
             if re == "inner":
@@ -277,8 +320,8 @@ def _make(seq):
     return h
 
 
-CORE = ["translate", "rotate-z", "pivot", "save", "save-a", "restore", "restore-a", "ctx-named",
-        "ctx-raise"]
+CORE = ["translate", "scale-vp", "pivot", "save", "save-a", "restore", "restore-a", "ctx-named-pop",
+        "ctx-raise", "ctx-pop"]
 
 
 def cells(tier):
